@@ -573,6 +573,20 @@ fn worker<H: Harness>(h: &H, args: &Args) -> i32 {
             }));
         }
         if let Some(v) = &out.violation {
+            // A finding that known_findings.txt lists by (clause, key) is reported
+            // once as KNOWN-FINDING; it is not minimised every time it recurs.
+            if let Some(text) = known.matches(h.property(), &v.clause, &h.key(&sc)) {
+                if !sum.known.contains(&text) {
+                    sum.known.push(text);
+                }
+                *sum.stats.entry("known_finding_reproduced".to_string()).or_insert(0) += 1;
+                recent.push_back(sc);
+                if recent.len() > 64 {
+                    recent.pop_front();
+                }
+                index += stride;
+                continue;
+            }
             // Minimise, then classify against the known findings.
             let (bx, bt) = h.minimise_budget();
             let (msc, mch, mout, execs) = minimise(h, &sc, &out.choices, &v.clause, bx, bt);
@@ -835,7 +849,15 @@ fn master<H: Harness>(h: &H, args: &Args) -> i32 {
                     .ok()
                     .and_then(|b| serde_json::from_slice::<Value>(&b).ok())
                 {
-                    samples.push(json!({"fixture_replay_of_repaired_defect": val}));
+                    let known = pth
+                        .file_name()
+                        .map(|n| n.to_string_lossy().contains("known-finding"))
+                        .unwrap_or(false);
+                    if known {
+                        samples.push(json!({"fixture_replay_of_known_finding": val}));
+                    } else {
+                        samples.push(json!({"fixture_replay_of_repaired_defect": val}));
+                    }
                 }
             }
         }
@@ -1007,8 +1029,8 @@ fn digests<H: Harness>(h: &H, args: &Args) -> i32 {
     let from = args.num("from").unwrap_or(0);
     let stride = args.num("stride").unwrap_or(1).max(1);
     let total = args.num("runs").unwrap_or(100);
-    let stdout = std::io::stdout();
-    let mut lock = stdout.lock();
+    // The stdout lock is not held across runs: code under test may print from
+    // another thread (the second process of a C20 pair) and would wait for ever.
     let mut index = from;
     while index < total {
         let (_sc, out) = generated_run(h, seed, tier, index);
@@ -1019,8 +1041,7 @@ fn digests<H: Harness>(h: &H, args: &Args) -> i32 {
             h.generate(&mut rng, tier, index)
         };
         let again = exec(h, &sc, Chooser::replay(out.choices.clone()), false);
-        let _ = writeln!(
-            lock,
+        println!(
             "{} {:016x} {:016x} {}",
             index,
             out.digest,
